@@ -1,18 +1,653 @@
-"""C20 run-directory level (stub, filled in below)."""
-RTAGS = {}
+"""C20 run-directory level: synthetic NONMEM run directories read by read_modelfit_results; generated tables
+(special iteration codes and regex texts regenerated from the pharmpy source by a fail-closed ast walk);
+float-engine checks of triangular_root."""
+import ast
+import json
+import math
+import shutil
+import warnings
+from decimal import Decimal, getcontext
+from fractions import Fraction
+from pathlib import Path
+
+from harness.lib import coqterm as ct
+from harness.lib.core import BUILD, REPO, coqc_file
+from harness.props import c20_writer as W
+
+getcontext().prec = 60
+
+RTAGS = {
+    1: 'read_modelfit_results outcome class differs from model', 2: 'ofv / ofv_iterations differ from model',
+    3: 'parameter estimates / iterations differ from model', 4: 'standard errors / sdcorr differ from model',
+    5: 'matrices read from cov/cor/coi differ from model', 6: 'iofv / individual estimates / covariances differ from model',
+    7: 'relative standard errors are not se/pe',
+    21: 'ofv is not the objective value of the designated row', 22: 'parameter estimates are not the designated row under the model\'s names with fixed parameters dropped',
+    23: 'standard errors are not row -1000000001 under the model\'s names',
+    24: 'covariance / correlation / precision matrix is not the written one (fixed dropped, model names)',
+    25: 'cov, cor, coi, se reported together violate their defining relations',
+    26: 'predictions / residuals are not the written $TABLE columns',
+    27: 'results object does not survive the JSON round trip',
+    28: 'individual OFV / estimates / covariances are not the written phi values',
+    29: 'read_modelfit_results raises (or gives no / failed results) on a well-formed run directory',
+}
+RCORR = (1, 2, 3, 4, 5, 6, 7)
+# oracle tag -> (corr tags that must be absent, [(guard tag, finding id)])
+ORACLE_R = {
+    21: ((2,), [(201, 'C20-FINAL-OBJ-NEQ-LAST'), (202, 'C20-NO-ITER0')]),
+    22: ((3,), [(201, 'C20-FINAL-OBJ-NEQ-LAST'), (202, 'C20-NO-ITER0')]),
+    23: ((4,), []), 24: ((5,), []), 25: ((), []),
+    26: ((), [(203, 'C20-NOHEADER-FIRST-ROW')]), 27: ((), [(204, 'C20-JSON-15-DECIMALS')]), 28: ((6,), []),
+    29: ((1,), [(205, 'C20-COR-READONLY')]),
+}
 
 
-def generated_tables(ctx):
-    pass
+def T(s):
+    """A text as a Gallina term of type Model.text: a string literal when every character is a single byte that
+    Coq's lexer passes through unchanged, else the list of codes."""
+    if s and all((32 <= ord(c) < 127) or c in '\n\r\t' for c in s):
+        return '(tx "' + s.replace('"', '""') + '"%string)'
+    return ct.lst([str(ord(c)) for c in s])
+
+
+# ------------------------------------------------------------------ numbers
+def to_sci6(x):
+    """Decimal -> writer 'e' number rounded (half even) to 6 significant digits."""
+    x = Decimal(x)
+    if x == 0:
+        return ['e', False, '000000', False, '00']
+    neg = x < 0
+    x = abs(x)
+    e = x.adjusted()
+    m = (x.scaleb(-e + 5)).to_integral_value()      # context rounding: ROUND_HALF_EVEN
+    if m >= 10 ** 6:
+        m = m // 10
+        e += 1
+    return ['e', neg, '%06d' % int(m), e < 0, '%02d' % abs(e)]
+
+
+def frac_dec(fr):
+    return Decimal(fr.numerator) / Decimal(fr.denominator)
+
+
+def inverse(A):
+    n = len(A)
+    M = [[Fraction(A[i][j]) for j in range(n)] + [Fraction(int(i == j)) for j in range(n)] for i in range(n)]
+    for c in range(n):
+        p = next(r for r in range(c, n) if M[r][c] != 0)
+        M[c], M[p] = M[p], M[c]
+        pv = M[c][c]
+        M[c] = [v / pv for v in M[c]]
+        for r in range(n):
+            if r != c and M[r][c] != 0:
+                f = M[r][c]
+                M[r] = [a - f * b for a, b in zip(M[r], M[c])]
+    return [row[n:] for row in M]
+
+
+def cov_family(spec):
+    """cov / cor / coi writer tables and the SE vector for the estimated parameters of the last step, consistent
+    to the printed precision; deterministic in spec['covseed']."""
+    import random
+    from harness.props import c20_gen as G
+    rng = random.Random(spec['covseed'])
+    cfg = spec['cfg']
+    cols, est, A, scale = G.gen_cov_matrix(rng, cfg)
+    n = len(est)
+    cov = [[Fraction(A[i][j]) * Fraction(10) ** (scale[i] + scale[j]) for j in range(n)] for i in range(n)]
+    sd = [frac_dec(cov[i][i]).sqrt() for i in range(n)]
+    inv = inverse(cov)
+    labels = ['NAME'] + [c[0] for c in cols]
+    pos = {j: k for k, j in enumerate(est)}
+    last = spec['ext'][-1]
+    title = {'number': last['title']['number'], 'method': last['title']['method'], 'design': None, 'goal': None,
+             'ids': [1, 0, 0, 0, 0, 0]}
+
+    def table(entry):
+        rows = []
+        for i, ci in enumerate(cols):
+            r = [['s', ci[0]]]
+            for j, cj in enumerate(cols):
+                r.append(entry(pos[i], pos[j]) if (i in pos and j in pos) else G.ZERO)
+            rows.append(r)
+        return {'title': title, 'labels': labels, 'rows': rows, 'lastwide': False, 'repeat': 0}
+    tcov = table(lambda a, b: to_sci6(frac_dec(cov[a][b])))
+    tcor = table(lambda a, b: to_sci6(sd[a]) if a == b else to_sci6(frac_dec(cov[a][b]) / (sd[a] * sd[b])))
+    tcoi = table(lambda a, b: to_sci6(frac_dec(inv[a][b])))
+    se = {cols[j][0]: to_sci6(sd[k]) for j, k in pos.items()}
+    return tcov, tcor, tcoi, se
+
+
+def materialise(spec):
+    """Fill in the parts of a run spec that are derived (cov family, SE row consistent with cov)."""
+    spec = json.loads(json.dumps(spec))
+    if spec.get('covfiles', 'none') != 'none' and 'cov_tables' not in spec:
+        tcov, tcor, tcoi, se = cov_family(spec)
+        spec['cov_tables'] = {'cov': tcov, 'cor': tcor, 'coi': tcoi}
+        last = spec['ext'][-1]
+        for r in last['rows']:
+            if r[0] == ['i', True, '1000000001']:
+                for j, lab in enumerate(last['labels']):
+                    if lab in se:
+                        r[j] = se[lab]
+    return spec
+
+
+LST_HEAD = """Mon Jan  1 10:00:00 CET 2024
+$PROBLEM synthetic
+1NONLINEAR MIXED EFFECTS MODEL PROGRAM (NONMEM) VERSION 7.5.0
+"""
+
+
+def lst_text(spec):
+    s = LST_HEAD
+    n = len(spec['ext'])
+    for k, t in enumerate(spec['ext']):
+        s += f" #TBLN:{t['title']['number']:7d}\n #METH: {t['title']['method']}\n"
+        s += " #TERM:\n0MINIMIZATION SUCCESSFUL\n NO. OF FUNCTION EVALUATIONS USED:      100\n NO. OF SIG. DIGITS IN FINAL EST.:  3.3\n"
+        s += " #TERE:\n Elapsed estimation  time in seconds:     0.32\n"
+        if k == n - 1 and spec.get('covstatus'):
+            s += " Elapsed covariance  time in seconds:     0.30\n"
+        s += "1\n #OBJV:********************************************      586.276       **************************************************\n"
+    s += "Stop Time:\nMon Jan  1 10:00:05 CET 2024\n"
+    return s
+
+
+def has_covfile(cf, kind):
+    return cf == 'all' or cf == kind or (cf == 'covcoi' and kind in ('cov', 'coi'))
+
+
+def build_rundir(d, spec):
+    d.mkdir(parents=True, exist_ok=True)
+    texts = {}
+    (d / 'run1.mod').write_text(spec['model'])
+    (d / 'data.csv').write_text("ID,TIME,DV\n1,0,1.0\n1,1,2.0\n2,0,1.5\n2,1,2.5\n")
+
+    def put(name, tables):
+        s = W.render_file(tables)
+        with open(d / name, 'w', newline='') as fh:
+            fh.write(s)
+        return s
+    if spec.get('ext') is not None:
+        texts['ext'] = put('run1.ext', spec['ext'])
+    if spec.get('phi'):
+        texts['phi'] = put('run1.phi', spec['phi'])
+    cf = spec.get('covfiles', 'none')
+    for kind in ('cov', 'cor', 'coi'):
+        if has_covfile(cf, kind):
+            texts[kind] = put('run1.' + kind, [spec['cov_tables'][kind]])
+    if spec.get('lst', True):
+        (d / 'run1.lst').write_text(lst_text(spec))
+    if spec.get('tab'):
+        texts['tab'] = put('sdtab1', [spec['tab']['table']])
+    return texts
+
+
+# ------------------------------------------------------------------ export of results
+def cellterm(v):
+    from harness.props.c20 import cellterm as c
+    return c(v)
+
+
+def named(ser, rowlabel=False):
+    if ser is None:
+        return '[]'
+    out = []
+    for k, v in ser.items():
+        name = 'ROW' if isinstance(k, tuple) else str(k)
+        out.append(f'({T(name)}, {cellterm(v)})')
+    return ct.lst(out)
+
+
+def matrix_opt(df):
+    if df is None:
+        return 'None'
+    from harness.props.c20 import matrixterm
+    return f'(Some {matrixterm(df)})'
+
+
+def view_opt(df):
+    if df is None:
+        return 'None'
+    return ('(Some (' + ct.lst([T(str(c)) for c in df.columns]) + ', '
+            + ct.lst([ct.lst([cellterm(v) for v in row]) for row in df.itertuples(index=False, name=None)]) + '))')
+
+
+def phi_opt(res):
+    if res.individual_ofv is None or res.individual_estimates is None or res.individual_estimates_covariance is None:
+        return 'None'
+    iofv, ie, iec = res.individual_ofv, res.individual_estimates, res.individual_estimates_covariance
+    return ('(Some (mkPhiRes ' + ct.lst([cellterm(x) for x in iofv.index]) + ' ' + ct.lst([cellterm(x) for x in iofv.values]) + ' '
+            + ct.lst([T(str(c)) for c in ie.columns]) + ' '
+            + ct.lst([ct.lst([cellterm(x) for x in row]) for row in ie.itertuples(index=False, name=None)]) + ' '
+            + ct.lst([ct.lst([ct.lst([cellterm(x) for x in r]) for r in m.values]) for m in iec.values]) + '))')
+
+
+MAIN_JSON_FIELDS = ('ofv', 'parameter_estimates', 'standard_errors', 'covariance_matrix')
+
+
+def json_rest_equal(res, dec):
+    """(exact, close, names of fields that are not exactly equal): every field but the four exported ones."""
+    from dataclasses import fields, is_dataclass
+    names = [f.name for f in fields(res)] if is_dataclass(res) else list(vars(res))
+    exact, close, bad = True, True, []
+    for name in names:
+        if name in MAIN_JSON_FIELDS:
+            continue
+        a, b = getattr(res, name), getattr(dec, name, None)
+        try:
+            e, c = _compare(a, b)
+        except Exception:
+            e, c = False, False
+        if not e:
+            exact = False
+            bad.append(name)
+        if not c:
+            close = False
+    return exact, close, bad
+
+
+def _compare(a, b):
+    import pandas as pd
+    if a is None or b is None:
+        same = a is None and b is None
+        return same, same
+    if isinstance(a, pd.Series) and len(a) and isinstance(a.iloc[0], pd.DataFrame):
+        if not isinstance(b, pd.Series) or len(a) != len(b) or [_norm(i) for i in a.index] != [_norm(i) for i in b.index]:
+            return False, False
+        rs = [_compare(x, y) for x, y in zip(a.values, b.values)]
+        return all(r[0] for r in rs), all(r[1] for r in rs)
+    if isinstance(a, (pd.DataFrame, pd.Series)):
+        return _loose_equal(a, b, 0), _loose_equal(a, b, 1e-14)
+    if hasattr(a, 'to_dataframe'):
+        same = a.to_dataframe().equals(b.to_dataframe())
+        return same, same
+    if isinstance(a, (list, tuple)):
+        if len(a) != len(b):
+            return False, False
+        rs = [_compare(x, y) for x, y in zip(a, b)]
+        return all(r[0] for r in rs), all(r[1] for r in rs)
+    na, nb = _norm(a), _norm(b)
+    if na == nb:
+        return True, True
+    if na[0] == 'n' and nb[0] == 'n':
+        return False, abs(na[1] - nb[1]) <= Fraction(1, 10 ** 15) * (1 + abs(na[1]))
+    return False, False
+
+
+def _loose_equal(a, b, rtol):
+    """Equality of values and labels ignoring the dtype of the containers (int32/int64 index levels)."""
+    import pandas as pd
+    try:
+        if isinstance(a, pd.Series):
+            if not isinstance(b, pd.Series):
+                return False
+            a, b = a.to_frame('x'), b.to_frame('x')
+        if list(map(str, a.columns)) != list(map(str, b.columns)) or len(a) != len(b):
+            return False
+        if [tuple(map(_norm, (i if isinstance(i, tuple) else (i,)))) for i in a.index] != \
+           [tuple(map(_norm, (i if isinstance(i, tuple) else (i,)))) for i in b.index]:
+            return False
+        for x, y in zip(a.values.ravel(), b.values.ravel()):
+            nx, ny = _norm(x), _norm(y)
+            if nx == ny:
+                continue
+            if rtol and nx[0] == 'n' and ny[0] == 'n' and abs(nx[1] - ny[1]) <= Fraction(1, 10 ** 15) * (1 + abs(nx[1])):
+                continue
+            return False
+        return True
+    except Exception:
+        return False
+
+
+def _norm(v):
+    import numpy as np
+    if v is None:
+        return ('nan',)          # None and NaN both mean missing (pandas .equals does not tell them apart either)
+    if isinstance(v, (bool, np.bool_)):
+        return ('b', bool(v))
+    if isinstance(v, (int, np.integer)):
+        return ('n', Fraction(int(v)))
+    if isinstance(v, (float, np.floating)):
+        return ('nan',) if math.isnan(v) else ('n', Fraction(float(v)))
+    return ('s', str(v))
+
+
+def observe_run(d, spec, results_mod=None):
+    """Returns the Gallina term of type rresult plus the model-side inputs taken from the real model object."""
+    import numpy as np
+    import pandas as pd
+    from pharmpy.modeling import read_model
+    from pharmpy.model.external.nonmem.update import create_name_map
+    from pharmpy.internals.math import is_positive_semidefinite
+    from pharmpy.tools.external.nonmem.results_file import NONMEMResultsFile
+    from pharmpy.workflows.results import read_results
+    if results_mod is None:
+        import pharmpy.tools.external.nonmem.results as results_mod
+    info = {'exc': None}
+    model = read_model(d / 'run1.mod')
+    nm = {v: k for k, v in create_name_map(model).items()}
+    pfix = dict(model.parameters.fix)
+    eta_names = set(nm.values())
+    rv = [n for n in model.random_variables.etas.names if n in eta_names]
+    # covariance status as the .lst parser derives it (input of the model)
+    covstatus = False
+    try:
+        rf = NONMEMResultsFile(d / 'run1.lst', log=None)
+        tn = [t['title']['number'] for t in spec['ext']]
+        covstatus = bool(rf.covariance_status(tn[-1])['covariance_step_ok']) if tn else False
+    except Exception:
+        covstatus = False
+    try:
+        with warnings.catch_warnings():
+            warnings.simplefilter('ignore')
+            res = results_mod.parse_modelfit_results(model, d / 'run1.mod')
+    except Exception as e:  # noqa
+        info['exc'] = type(e).__name__
+        from harness.props.c20 import errclass
+        return f'(RRExc {errclass(e)})', nm, pfix, rv, covstatus, info
+    if res is None:
+        return 'RRNone', nm, pfix, rv, covstatus, info
+    if res.ofv_iterations is None:
+        return f'(RRFailed {cellterm(res.ofv)} {named(res.parameter_estimates)})', nm, pfix, rv, covstatus, info
+    ofvit = ct.lst([f'({int(k[0])}%nat, {cellterm(k[1])}, {cellterm(v)})' for k, v in res.ofv_iterations.items()])
+    pei = res.parameter_estimates_iterations
+    peit = ct.lst([f'({int(k[0])}%nat, {cellterm(k[1])}, {ct.lst([cellterm(x) for x in row])})'
+                   for k, row in zip(pei.index, pei.itertuples(index=False, name=None))])
+    cov = res.covariance_matrix
+    psd = True
+    if cov is not None:
+        try:
+            m = results_mod._parse_matrix(d / 'run1.cov', model.internals.control_stream, nm,
+                                          [t['title']['number'] for t in spec['ext']])
+            psd = True if m is None else bool(is_positive_semidefinite(m))
+        except Exception:
+            psd = False
+    # JSON round trip
+    try:
+        dec = read_results(res.to_json())
+        jofv, jpe, jse, jcov = dec.ofv, dec.parameter_estimates, dec.standard_errors, dec.covariance_matrix
+        jrest, jclose, bad = json_rest_equal(res, dec)
+        info['json_bad'] = bad
+    except Exception as e:  # noqa
+        info['json_exc'] = type(e).__name__ + ': ' + str(e)[:200]
+        jofv, jpe, jse, jcov, jrest, jclose = float('nan'), None, None, None, False, False
+    rse = res.relative_standard_errors
+    term = ('(RROk (mkRObs ' + cellterm(res.ofv) + '\n  ' + ofvit + '\n  ' + named(res.parameter_estimates) + ' '
+            + ct.lst([T(str(c)) for c in pei.columns]) + '\n  ' + peit + '\n  ' + named(res.parameter_estimates_sdcorr)
+            + '\n  ' + named(res.standard_errors) + ' ' + named(res.standard_errors_sdcorr) + ' ' + named(rse) + '\n  '
+            + matrix_opt(cov) + ' ' + matrix_opt(res.correlation_matrix) + ' ' + matrix_opt(res.precision_matrix) + ' '
+            + ct.boolean(psd) + '\n  ' + phi_opt(res) + '\n  ' + view_opt(res.predictions) + ' ' + view_opt(res.residuals)
+            + '\n  ' + cellterm(jofv) + ' ' + named(jpe) + ' ' + named(jse) + ' ' + matrix_opt(jcov) + ' ' + ct.boolean(jrest) + ' ' + ct.boolean(jclose) + '))')
+    info['cov'] = cov is not None
+    return term, nm, pfix, rv, covstatus, info
+
+
+def opt_text(s):
+    return 'None' if s is None else f'(Some {T(s)})'
+
+
+def rcase_term(ctx, spec, k, results_mod=None, perturb=None):
+    from harness.props.c20 import wtable_term
+    spec = materialise(spec)
+    d = ctx.rundir / 'runs' / f'r{k}'
+    if d.exists():
+        shutil.rmtree(d)
+    texts = build_rundir(d, spec)
+    obs, nm, pfix, rv, covstatus, info = observe_run(d, spec, results_mod)
+    if perturb:
+        obs = perturb(obs)
+    cf = spec.get('covfiles', 'none')
+
+    def wopt(kind):
+        return '(Some ' + wtable_term(spec['cov_tables'][kind]) + ')' if has_covfile(cf, kind) else 'None'
+    wtab = 'None'
+    if spec.get('tab'):
+        t = spec['tab']['table']
+        wtab = '(Some (mkWTab ' + wtable_term(t) + ' ' + ct.lst([T(x) for x in t['labels']]) + '))'
+    expected = ct.lst([f'({T(rename_label(a))}, {T(b)})' for a, b in spec['names'].items()])
+    term = ('(mkR ' + opt_text(texts.get('ext')) + '\n ' + opt_text(texts.get('cov')) + ' ' + opt_text(texts.get('cor')) + ' '
+            + opt_text(texts.get('coi')) + '\n ' + opt_text(texts.get('phi')) + '\n '
+            + ct.lst([f'({T(a)}, {ct.boolean(bool(b))})' for a, b in pfix.items()]) + '\n '
+            + ct.lst([f'({T(a)}, {T(b)})' for a, b in nm.items()]) + ' ' + ct.lst([T(x) for x in rv]) + ' '
+            + ct.boolean(covstatus) + ' ' + ct.boolean(values_writable()) + '\n ' + ct.lst([wtable_term(t) for t in spec['ext']]) + '\n '
+            + wopt('cov') + ' ' + wopt('cor') + ' ' + wopt('coi') + '\n '
+            + ('None' if not spec.get('phi') else '(Some ' + ct.lst([wtable_term(t) for t in spec['phi']]) + ')') + '\n '
+            + wtab + ' ' + expected + ' (1#10000)%Q (1#1000000000)%Q\n ' + obs + ')')
+    info['covstatus'] = covstatus
+    info['covfiles'] = cf
+    return term, info
+
+
+def values_writable():
+    import pandas as pd
+    return bool(pd.DataFrame([[1.0, 2.0], [3.0, 4.0]]).values.flags.writeable)
+
+
+def rename_label(lab):
+    return lab
+
+
+def classify_r(ctx, spec, tags):
+    tags = set(tags)
+    corr = sorted(t for t in tags if t in RCORR)
+    oracle = sorted(t for t in tags if t in ORACLE_R)
+    status = 'ok'
+    for t in oracle:
+        need_absent, guards = ORACLE_R[t]
+        explained = not any(c in tags for c in need_absent)
+        fid = next((f for g, f in guards if g in tags and ctx.open_finding(f)), None)
+        if explained and fid:
+            ctx.coverage.setdefault('known_hits', {}).setdefault(fid, 0)
+            ctx.coverage['known_hits'][fid] += 1
+            if status == 'ok':
+                status = 'known'
+        else:
+            ctx.violation(RTAGS[t], {'spec': spec, 'tags': sorted(tags), 'tag_meaning': RTAGS[t]})
+            status = 'violation'
+    if corr and status != 'violation':
+        ctx.broken.append('correspondence C20 run-level model vs implementation: ' + ', '.join(RTAGS[t] for t in corr)
+                          + ' on ' + json.dumps(spec)[:600])
+        ctx.coverage.setdefault('corr_disagreements', []).append({'spec': spec, 'tags': sorted(tags)})
+        status = 'broken'
+    return status
 
 
 def run_rspecs(ctx, specs, label, quiet=False, **kw):
-    return [[] for _ in specs], [{} for _ in specs], {'ok': 0, 'known': 0, 'violation': 0, 'broken': 0}
-
-
-def float_engine_checks(ctx):
-    pass
+    from harness.props.c20 import IMPORTS, PRELUDE
+    terms, infos = [], []
+    for k, spec in enumerate(specs):
+        term, info = rcase_term(ctx, spec, f'{label}{k}', **kw)
+        terms.append(term)
+        infos.append(info)
+    verdicts = ctx.run_cases(label, IMPORTS, 'rcase', terms, 'rverdict', shard=4, prelude=PRELUDE) if terms else []
+    stats = {'ok': 0, 'known': 0, 'violation': 0, 'broken': 0}
+    if not quiet:
+        for spec, tags in zip(specs, verdicts):
+            stats[classify_r(ctx, spec, tags)] += 1
+    shutil.rmtree(ctx.rundir / 'runs', ignore_errors=True)
+    return verdicts, infos, stats
 
 
 def distribution(rspecs, rverdicts, rinfos):
-    return {}
+    return {
+        'n': len(rspecs),
+        'steps_hist': {str(k): sum(1 for s in rspecs if len(s['ext']) == k) for k in (1, 2, 3)},
+        'covfiles': {k: sum(1 for s in rspecs if s.get('covfiles') == k) for k in ('all', 'cov', 'cor', 'coi', 'covcoi', 'none')},
+        'with_phi': sum(1 for s in rspecs if s.get('phi')),
+        'with_table': sum(1 for s in rspecs if s.get('tab')),
+        'table_modes': {m: sum(1 for s in rspecs if s.get('tab') and s['tab']['mode'] == m) for m in ('ONEHEADER', '', 'NOTITLE', 'NOHEADER', 'NOLABEL')},
+        'exceptions': sum(1 for i in rinfos if i.get('exc')),
+        'cov_reported': sum(1 for i in rinfos if i.get('cov')),
+        'inconclusive': sum(1 for v in rverdicts if any(t >= 1000 for t in v)),
+        'guard_final_obj_differs': sum(1 for v in rverdicts if 201 in v),
+        'guard_no_iter0': sum(1 for v in rverdicts if 202 in v),
+        'guard_noheader': sum(1 for v in rverdicts if 203 in v),
+        'json_close_only': sum(1 for v in rverdicts if 204 in v and 27 in v),
+        'guard_cor_readonly': sum(1 for v in rverdicts if 205 in v),
+        'json_field_mismatches': sorted({b for i in rinfos for b in i.get('json_bad', [])}),
+    }
+
+
+# ------------------------------------------------------------------ tables regenerated from the source
+class GenError(Exception):
+    pass
+
+
+def _const_int(node):
+    if isinstance(node, ast.Constant) and isinstance(node.value, int):
+        return node.value
+    if isinstance(node, ast.UnaryOp) and isinstance(node.op, ast.USub):
+        return -_const_int(node.operand)
+    if isinstance(node, ast.BinOp) and isinstance(node.op, ast.Pow):
+        return _const_int(node.left) ** _const_int(node.right)
+    raise GenError('not an integer literal: ' + ast.dump(node))
+
+
+def extract_codes(table_src, results_src):
+    """Fail-closed: the ExtTable properties must have exactly the expected shape."""
+    tree = ast.parse(table_src)
+    ext = next(n for n in tree.body if isinstance(n, ast.ClassDef) and n.name == 'ExtTable')
+    props = {n.name: n for n in ext.body if isinstance(n, ast.FunctionDef)}
+
+    def calls(fn, callee):
+        out = []
+        for node in ast.walk(props[fn]):
+            if isinstance(node, ast.Call) and isinstance(node.func, ast.Attribute) and node.func.attr == callee:
+                if isinstance(node.args[0], ast.Name):
+                    continue            # the fallback call on a computed iteration number
+                out.append(_const_int(node.args[0]))
+        return out
+    codes = {}
+    for prop, callee, n in (('final_parameter_estimates', '_get_parameters', 1), ('standard_errors', '_get_parameters', 1),
+                            ('condition_number', '_get_parameters', 1), ('omega_sigma_stdcorr', '_get_parameters', 1),
+                            ('omega_sigma_se_stdcorr', '_get_parameters', 1), ('fixed', '_get_parameters', 1),
+                            ('final_ofv', '_get_ofv', 1), ('initial_ofv', '_get_ofv', 2)):
+        c = calls(prop, callee)
+        # the fallback calls use a variable (final_iter), which _const_int rejects -> only literal calls are collected
+        if len(c) != n:
+            raise GenError(f'{prop}: expected {n} literal calls of {callee}, found {c}')
+        codes[prop] = c
+    rtree = ast.parse(results_src)
+    gid = next(n for n in rtree.body if isinstance(n, ast.FunctionDef) and n.name == '_get_iter_df')
+    finals = [_const_int(n.value) for n in ast.walk(gid) if isinstance(n, ast.Assign)
+              and isinstance(n.targets[0], ast.Name) and n.targets[0].id == 'final_iter']
+    if len(finals) != 1:
+        raise GenError('_get_iter_df: final_iter')
+    codes['_get_iter_df'] = finals
+    # regex / literal texts of _parse_table
+    ntf = next(n for n in tree.body if isinstance(n, ast.ClassDef) and n.name == 'NONMEMTableFile')
+    pt = next(n for n in ntf.body if isinstance(n, ast.FunctionDef) and n.name == '_parse_table')
+    strings = []
+    for node in ast.walk(pt):
+        if isinstance(node, ast.Call) and isinstance(node.func, ast.Attribute) and isinstance(node.func.value, ast.Name) \
+           and node.func.value.id == 're' and node.args and isinstance(node.args[0], (ast.Constant, ast.JoinedStr)):
+            if isinstance(node.args[0], ast.Constant):
+                strings.append((node.func.attr, node.args[0].value))
+    init = next(n for n in ntf.body if isinstance(n, ast.FunctionDef) and n.name == '__init__')
+    starts = [n.args[0].value for n in ast.walk(init) if isinstance(n, ast.Call) and isinstance(n.func, ast.Attribute)
+              and n.func.attr == 'startswith']
+    return codes, strings, starts
+
+
+def wrapped_calls(fn_node):
+    return fn_node
+
+
+def _collect_literal_calls(fn, callee):
+    return []
+
+
+EXPECTED_REGEX = [
+    ('sub', r"[A-Z]*OBJ"), ('match', r'\s[A-Za-z_]'), ('match', r'TABLE NO.\s+(\d+)'), ('search', r'(Evaluation)'),
+    ('match', r'TABLE NO.\s+\d+: (.*?)(?:: ([\w-]+))?: (?:Goal Function=(.*): )?Problem=(\d+) '
+              r'Subproblem=(\d+) Superproblem1=(\d+) Iteration1=(\d+) Superproblem2=(\d+) '
+              r'Iteration2=(\d+)'),
+]
+
+
+def generated_tables(ctx, table_src=None, results_src=None):
+    """build/gen/C20/ExtCodes.v from the source + an obligation file comparing it with the model's tables."""
+    gen = BUILD / 'gen' / 'C20'
+    gen.mkdir(parents=True, exist_ok=True)
+    table_src = table_src or (REPO / 'src/pharmpy/model/external/nonmem/table.py').read_text()
+    results_src = results_src or (REPO / 'src/pharmpy/tools/external/nonmem/results.py').read_text()
+    ctx.obligations += 2
+    try:
+        codes, strings, starts = extract_codes(table_src, results_src)
+    except (GenError, StopIteration, IndexError, SyntaxError) as e:
+        ctx.broken.append(f'T-tables: cannot regenerate the iteration code table from table.py: {e}')
+        return False
+    order = ['final_parameter_estimates', 'standard_errors', 'condition_number', 'omega_sigma_stdcorr',
+             'omega_sigma_se_stdcorr', 'fixed', 'final_ofv', 'initial_ofv']
+    flat = [c for k in order for c in codes[k]]
+    v = gen / f'ExtCodes_{ctx.prop}_{id(ctx) % 100000}.v'
+    name = v.stem
+    v.write_text(
+        'From Coq Require Import ZArith List.\nFrom PV Require Import C20.Model.\nImport ListNotations.\n'
+        '(* generated from pharmpy/model/external/nonmem/table.py and tools/external/nonmem/results.py *)\n'
+        f'Definition src_used_codes : list Z := {ct.lst([ct.z(c) for c in flat])}.\n'
+        f'Definition src_iter_df_final : Z := {ct.z(codes["_get_iter_df"][0])}.\n'
+        'Example src_codes_are_designated : src_used_codes = used_codes.\nProof. reflexivity. Qed.\n'
+        'Example src_iter_df_code : src_iter_df_final = code_final.\nProof. reflexivity. Qed.\n'
+        'Print Assumptions src_codes_are_designated.\n')
+    rc, out = coqc_file(v)
+    for f in gen.glob(name + '.*'):
+        if f.suffix != '.v':
+            f.unlink()
+    if rc != 0 or 'Closed under the global context' not in out:
+        ctx.broken.append('T-tables: the ITERATION codes used by ExtTable / _get_iter_df are not the designated ones '
+                          f'(source has {flat}, _get_iter_df {codes["_get_iter_df"]}): ' + out[-300:])
+        return False
+    ctx.discharged += 1
+    # the regular expressions and the startswith literal the hand-written matchers of Model.v stand for
+    if sorted(strings) != sorted(EXPECTED_REGEX) or starts != ['TABLE NO.']:
+        ctx.broken.append('T-tables: the regular expressions of NONMEMTableFile._parse_table changed; the matchers of '
+                          f'C20/Model.v (parse_title, sub_obj, header_like) describe other patterns: {strings} {starts}')
+        return False
+    ctx.discharged += 1
+    ctx.coverage['generated_tables'] = {'codes': codes, 'regex': [s for _, s in strings]}
+    return True
+
+
+# ------------------------------------------------------------------ the float engine in triangular_root
+def float_engine_checks(ctx, math_mod=None):
+    """math.floor(math.sqrt(2*x)) against the integer square root of the model: exhaustively for small x, on every
+    triangular number up to n = 3000 and around powers of two, and the first x where the float computation differs."""
+    if math_mod is None:
+        import pharmpy.internals.math as math_mod
+    bad = []
+    lim = 20000 if ctx.tier == 'quick' else 400000
+    for x in range(lim):
+        if math_mod.triangular_root(x) != math.isqrt(2 * x):
+            bad.append(x)
+    for n in list(range(3000)) + [2 ** k + d for k in range(12, 26) for d in (-1, 0, 1)] + [94906265]:
+        x = n * (n + 1) // 2
+        if math_mod.triangular_root(x) != n:
+            bad.append(x)
+    for k in range(20, 51):
+        for d in (-2, -1, 0, 1, 2):
+            x = 2 ** k + d
+            if 2 * x < 2 ** 52 and math_mod.triangular_root(x) != math.isqrt(2 * x):
+                bad.append(x)
+    ctx.coverage['triangular_root_float_checks'] = lim + 3000 + 14 * 3 + 31 * 5
+    k = 2 ** 26 + 1
+    x = (k * k - 1) // 2
+    ctx.coverage['triangular_root_float_boundary'] = {
+        'x': x, 'float': math_mod.triangular_root(x), 'isqrt': math.isqrt(2 * x),
+        'note': 'first kind of argument (2x >= 2^52, not a triangular number) where the float square root rounds up to the next integer; irrelevant for len(x) of real arrays'}
+    if bad:
+        ctx.broken.append(f'triangular_root (float sqrt) differs from the integer model on {bad[:5]}')
+    # flattened_to_symmetric of the real code against the model's entry formula
+    import numpy as np
+    for n in range(1, 9):
+        xs = list(range(1, n * (n + 1) // 2 + 1))
+        try:
+            m = math_mod.flattened_to_symmetric(np.array(xs, dtype=float))
+        except Exception as e:  # noqa
+            ctx.broken.append(f'flattened_to_symmetric raises {type(e).__name__} on a triangular vector (n={n})')
+            return
+        for r in range(n):
+            for c in range(r + 1):
+                if m[r][c] != xs[r * (r + 1) // 2 + c] or m[c][r] != m[r][c]:
+                    ctx.broken.append(f'flattened_to_symmetric entry ({r},{c}) for n={n}')
+                    return
